@@ -11,6 +11,7 @@ mod j;
 mod namescmd;
 mod wirecmd;
 mod zonecmd;
+mod zonetextcmd;
 
 use serde_json::{json, Value};
 use std::io::{BufRead, BufReader, BufWriter, Write};
@@ -62,6 +63,8 @@ fn main() {
         "wire-encode" => wirecmd::wire_encode(&args[2], &args[3]),
         "hosts" => hostscmd::hosts(&args[2], &args[3]),
         "names" => namescmd::names(&args[2], &args[3]),
+        "zone-text" => zonetextcmd::zone_text(&args[2], &args[3]),
+        "parse-only" => zonetextcmd::parse_only(&args[2], &args[3]),
         "zone-resolve" => zonecmd::zone_resolve(&args[2], &args[3]),
         other => {
             eprintln!("unknown command {other}");
